@@ -572,8 +572,47 @@ def rule_operators(ctx, repo, it):
         env = final_expr(p, 'v', 'stack')
         if 'v' in env:
             got.add(operand_names(env['v'], 'stack'))
+    if not got:
+        # no flag variable: the condition is the one under which b'\x01' (and not b'') is what the operation pushes
+        sem = set()
+        for p in rows[(O['OP_WITHIN'], True)]:
+            if p.end == 'raise':
+                continue
+            env = final_expr(p, None, 'stack')
+            pushes = [s_.value.args[0] for s_ in p.stmts() if isinstance(s_, ast.Expr) and isinstance(s_.value, ast.Call) and norm(s_.value.func) == 'stack.append' and s_.value.args]
+            if not pushes:
+                sem.add(None)
+                continue
+            x = subst_expr(pushes[-1], env)
+            conds = [(operand_names(subst_expr(ast.parse(k_, mode='eval').body, env), 'stack'), val) for k_, val in p.assume.items() if 'len(' not in k_]
+            conds = [c_ for c_ in conds if re.search(r'\b(TOP|SECOND|THIRD)\b', c_[0])]
+            if isinstance(x, ast.IfExp) and isinstance(x.body, ast.Constant) and isinstance(x.orelse, ast.Constant) and not conds:
+                t_ = operand_names(x.test, 'stack')
+                sem.add((t_, True, x.body.value))
+                sem.add((t_, False, x.orelse.value))
+            elif isinstance(x, ast.Constant) and len(conds) == 1:
+                sem.add((conds[0][0], conds[0][1], x.value))
+            else:
+                sem.add(None)
+        tests = {t[0] for t in sem if t is not None}
+        if None not in sem and len(tests) == 1 and {(t[1], t[2]) for t in sem} == {(True, b'\x01'), (False, b'')}:
+            got = tests
+        elif None not in sem and len(tests) == 1 and {(t[1], t[2]) for t in sem} == {(False, b'\x01'), (True, b'')}:
+            got = {'not (%s)' % next(iter(tests))}
     acc = {'SECOND <= THIRD and THIRD < TOP', 'THIRD >= SECOND and THIRD < TOP', 'SECOND <= THIRD < TOP', 'THIRD < TOP and SECOND <= THIRD'}
-    r.check(bool(got) and got <= acc, 'OP_WITHIN', common.site_of(it.fi, it.loop), sorted(got), 'OP_WITHIN computes %s; reference: min <= x < max with x third from top' % sorted(got))
+    if not got:
+        r.undecided('OP_WITHIN', common.site_of(it.fi, it.loop), 'the condition under which OP_WITHIN pushes true was not found')
+    elif got <= acc:
+        r.ok('OP_WITHIN', common.site_of(it.fi, it.loop), '%s' % sorted(got))
+    else:
+        from ..rules import equiv
+        verdicts = [equiv(g_, 'SECOND <= THIRD and THIRD < TOP') for g_ in sorted(got)]
+        if all(v_ is True for v_ in verdicts):
+            r.ok('OP_WITHIN', common.site_of(it.fi, it.loop), '%s' % sorted(got))
+        elif any(v_ is False for v_ in verdicts):
+            r.violated('OP_WITHIN', common.site_of(it.fi, it.loop), 'OP_WITHIN computes %s; reference: min <= x < max with x third from top' % sorted(got))
+        else:
+            r.undecided('OP_WITHIN', common.site_of(it.fi, it.loop), 'OP_WITHIN computes %s, which was not compared with min <= x < max' % sorted(got))
     # results are encoded with bn2vch
     for fi in (fu, fb):
         enc = [norm(c) for c in common.iter_calls(fi.node) if isinstance(c.func, ast.Attribute) and c.func.attr == 'append']
